@@ -127,3 +127,15 @@ chk("C12",
     "The scanner folds the documented opt-ins transient=False and reuse_internal_data=False. Aliasing of numpy views (input "
     "mutation) and bit-repeatability are runtime behaviour: search only.",
     "Lean 4 proof (kernel-decided dataflow check over a source-generated event list + purity lemma); history search", "8/C12")
+chk("C13",
+    "Lean theorems over the time-series loop model, for every list of time steps (any order, subset, repetition) and any "
+    "profile: if the controllers overwrite their controlled cells (hypothesis, library behaviour), the log of every step equals "
+    "the stand-alone run on the original net carrying that step's row, independent of all preceding steps; a diverged step is "
+    "logged as diverged exactly when the stand-alone run diverges and does not alter other steps (continue_on_divergence); "
+    "without it the log is the prefix up to the first divergence; the plain loops register PipeflowNotConverged as their "
+    "divergence error and the multi-energy loop takes each member net's error classes from pandapipes' own prepare_run_ctrl "
+    "(facts regenerated from the source, decided by evaluation). Search: real run_timeseries with ConstControl/OutputWriter vs "
+    "exact stand-alone runs on fresh copies, incl. infeasible steps and random step orders.",
+    "pandapower's control / time-series machinery is a parameter of the model with a stated law; multi-energy time series are "
+    "exercised under C20.",
+    "Lean 4 proof by induction over time-step lists + source-generated wiring facts; differential time-series search", "8/C13")
